@@ -35,7 +35,7 @@ func TestMain(m *testing.M) {
 	drv.TestMain(m, func() *drv.Evidence { return ev })
 }
 
-const rule = "rapid state machine over Store/Load/Damage/Clear against an in-memory model keyed by (GOOS,GOARCH,GOROOT,GOPATH,BuildTags,Version,import path); configurations are drawn from small pools so that pairs differing in exactly one field are frequent; damage = every truncation length, bit flips, overwrites, appended bytes, empty file, directory in place; crash points = SIGKILL injected by strace at the N-th openat/write/close/renameat/mkdirat of a Store; content round trips: gob round trip of parsed GOROOT/repo/generated files and end-to-end JS equality for programs. Non-trivial history: contains a Load under a configuration differing in exactly one field from a stored one, or a damage strictly inside the gzip stream; non-trivial damage case: offset inside the stream; all cases distinct by content hash."
+const rule = "rapid state machine over Store/Load/Damage/Clear against an in-memory model keyed by (GOOS,GOARCH,GOROOT,GOPATH,BuildTags,Version,import path); configurations are drawn from small pools so that pairs differing in exactly one field are frequent; damage = every truncation length, bit flips, overwrites, appended bytes, empty file, directory in place; crash points = SIGKILL injected by strace at the N-th openat/write/close/renameat/mkdirat of a Store; content round trips: gob round trip of parsed GOROOT/repo/generated files and end-to-end JS equality for programs. Non-trivial history: contains a Load under a configuration differing in exactly one field from a stored one, or a damage strictly inside the gzip stream; non-trivial damage case: offset inside the stream; all cases distinct by content hash. Session level: rapid-generated histories of edits and builds of a small project (main package, library package, loose files built with BuildFiles), every build run with the shared on-disk cache installed into the session through the verif hook and again without any cache; the two outputs must be identical."
 
 // ---------- test payload ----------
 
@@ -265,6 +265,11 @@ func TestCheck(t *testing.T) {
 	astRoundTrip(t, nFiles)
 	endToEnd(t)
 	crashPoints(t, nCrash)
+	nSess := 12
+	if drv.Thorough() {
+		nSess = 150
+	}
+	drv.RapidCheck(t, ev, "session", nSess, sessionHistory)
 }
 
 func describeHist(h []string) map[string]string {
